@@ -49,7 +49,8 @@ Print Assumptions C06_length_table.
 (* Detection, algebraically (CRC linear over xor; three finite sweeps by vm_compute): a valid
    frame body ++ [CRC lo; CRC hi] of ANY length hit by an error pattern of the same length whose
    bits (wire order: byte by byte, LSB first) are a single 1, two 1s at most 2100 bits apart
-   (every pair inside a 256-byte frame), or confined to a 16-bit window, never verifies. *)
+   (every pair inside a 256-byte frame), or confined to a span of at most 16 bits (any burst
+   <= 16, anywhere in the frame, trailer included), never verifies. *)
 Theorem C06_detect : forall body lo hi eb elo ehi,
   bytes (body ++ [lo; hi]) -> bytes (eb ++ [elo; ehi]) -> length eb = length body ->
   (lo + 256 * hi)%N = crc body ->
@@ -78,6 +79,21 @@ Theorem C06_detect_session : forall p addr pdu lo hi rest chunks fi,
 Proof. exact rtu_detect_session. Qed.
 Print Assumptions C06_detect_session.
 
+(* C06_detect and C06_detect_session in one statement: a VALID frame hit by a length-preserving
+   error pattern of one of the classes (single bit, double bit, burst <= 16 - anywhere, address and
+   trailer included) is rejected with CrcValidationFailure and nothing is delivered, whatever
+   follows it and however the bytes are cut into reads. *)
+Theorem C06_corrupted_frame_rejected : forall p addr pdu lo hi ea epdu elo ehi rest chunks fi,
+  bytes (addr :: pdu ++ [lo; hi]) -> bytes (ea :: epdu ++ [elo; ehi]) -> bytes rest -> length epdu = length pdu ->
+  (lo + 256 * hi)%N = crc (addr :: pdu) ->
+  err_class (bits_of (ea :: epdu ++ [elo; ehi])) ->
+  delimited (role_of p) (xor_bytes pdu epdu) -> length pdu <= 253 ->
+  concat chunks = xor_bytes (addr :: pdu ++ [lo; hi]) (ea :: epdu ++ [elo; ehi]) ++ rest -> Forall (fun c => c <> []) chunks ->
+  exists received expected, received <> expected /\
+    run_session (kind_of p) false chunks fi = ([], EndBad (CrcValidationFailure received expected)).
+Proof. exact rtu_corrupted_frame_rejected. Qed.
+Print Assumptions C06_corrupted_frame_rejected.
+
 (* the gate is not vacuous: a delimited frame with the right CRC is delivered *)
 Theorem C06_accept : forall p addr pdu chunks fi,
   bytes (rtu_frame_of addr pdu) -> delimited (role_of p) pdu -> length pdu <= 253 ->
@@ -96,3 +112,9 @@ Example C06_nonvacuous :
 Proof. vm_compute. reflexivity. Qed.
 Example C06_detect_nonvacuous : err_class (bits_of [0;4;0;0]%N) /\ delimited Requests [1;0;16;0;19]%N.
 Proof. split; [left; exists 10, 21; reflexivity|reflexivity]. Qed.
+(* a 9-bit burst over the last payload byte and the first CRC byte *)
+Example C06_detect_burst_nonvacuous : err_class (bits_of [0;0;128;255;0]%N).
+Proof.
+  right; right; right. exists 23, [true;true;true;true;true;true;true;true;true], 8.
+  split; [cbn; repeat constructor|]. split; [discriminate|]. split; [cbn; repeat constructor|reflexivity].
+Qed.
